@@ -351,17 +351,6 @@ fn run<F: MathFunction + RenderHints + Clone>(case: &Case, cx: &mut Cx) -> Check
         );
     }
     cx.ev.count("meshes_fully_checked");
-    // vertices inside the (model-space image of the) region
-    let inv = w2m.try_inverse().unwrap();
-    for v in &mesh.vertices {
-        let q = inv.transform_point(&Point3::from(*v));
-        ensure!(
-            q.x.abs() <= 1.001 && q.y.abs() <= 1.001 && q.z.abs() <= 1.001,
-            "vertex-outside-region",
-            "vertex {v:?} maps to world {q:?}, outside [-1, 1]^3 (depth {})",
-            case.depth
-        );
-    }
     // (2) orientation
     ensure!(
         mesh.triangles.is_empty() || st.volume > 0.0 || v_ref < 0.5 * a_ref.max(st.area) * h * lin,
@@ -525,7 +514,7 @@ impl Prop for P {
          once; (2)-(3) for shapes resolved at this depth (on the reference grid, no inside or outside sample lies farther than \
          1.8h from the part of its set that is more than h away from the other set: no feature or gap thinner than about \
          two cells) and whose mesh has no vertex more than 1.5 cells from the surface (|f(v)| <= 1.5h for the 1-Lipschitz CSG \
-         field; escaped QEF vertices are finding F9): all vertices inside the region, signed volume positive, \
+         field; escaped QEF vertices are finding F9): signed volume positive, \
          >= 50% of the area has the field increasing along the normal, |mesh volume - reference volume| <= 0.5*A*h. \
          Non-trivial = at least two primitives, fully checked, non-empty mesh."
     }
